@@ -154,7 +154,8 @@ InitCacheV(s) == UNION {{<<t, C(i).se, C(i).sa, C(i).init>> : t \in InitTimes(i)
 Init ==
   /\ pc = [s \in Sims |-> "init"]
   /\ progress = [s \in Sims |-> Zero(Depth(s))]
-  /\ nexts = [s \in Sims |-> IF TypeOf(SC, s) # "event-based" \/ SimRec(SC, s).initev THEN {Zero(Depth(s))} ELSE {}]
+  /\ nexts = [s \in Sims |-> (IF TypeOf(SC, s) # "event-based" \/ SimRec(SC, s).initev THEN {Zero(Depth(s))} ELSE {})
+                             \cup {FlatT(Depth(s), t) : t \in {u \in InitEvs(SC, s) : u >= 0}}]
   /\ cur = [s \in Sims |-> None]
   /\ last = [s \in Sims |-> -1]
   /\ tgt = [s \in Sims |-> None]
